@@ -496,7 +496,7 @@ class SelectorWorld:
             if not 1 <= N <= n:
                 return False
             init = p.get("initialize", 0)
-            if init != "random" and not (isinstance(init, numbers.Integral) and 0 <= init < n):
+            if init != "random" and not (isinstance(init, numbers.Integral) and -n <= init < n):
                 return False
             ff = p.get("full_fraction")
             if ff is not None and not (isinstance(ff, numbers.Real) and 0 < ff <= 1):
@@ -690,18 +690,25 @@ class SelectorWorld:
         tau = ref.tau
         for ns_k, idx_k, tab_k in steps:
             have = len(ref.selected)
-            if ns_k < have or list(idx_k[:have]) != ref.selected:
+            if ns_k < have or [int(v) % n_from for v in idx_k[:have]] != ref.selected:
                 V("prefix_changed", f"earlier selections changed: {ref.selected} -> {idx_k.tolist()}")
                 return
             for j in idx_k[have:]:
                 j = int(j)
+                first = not ref.selected
+                if first and -n_from <= j < 0 and isinstance(p.get("initialize", 0), numbers.Integral) and p.get("initialize", 0) == j:
+                    # a negative initial index is accepted and means "counted from the end"
+                    self.count("negative_initial_index")
+                    j = j + n_from
+                    neg_first = True
+                else:
+                    neg_first = False
                 if not (0 <= j < n_from):
                     V("index_out_of_range", f"{j}")
                     return
-                first = not ref.selected
                 if first:
                     init = p.get("initialize", 0)
-                    if isinstance(init, numbers.Integral) and not isinstance(init, bool) and j != init:
+                    if isinstance(init, numbers.Integral) and not isinstance(init, bool) and j != (init + n_from if neg_first else init):
                         V("initial_point", f"first selection {j} is not the requested initial index {init}")
                 ok, short = ref.check_choice(j)
                 if ref.is_tie() and not first:
@@ -747,7 +754,7 @@ class SelectorWorld:
         if p.get("full_fraction") is None and not op.get("warm") and isinstance(ff, numbers.Real):
             self.count(f"calibration_outcome_{int(round(float(ff) * 128)):03d}")
             self.count("calibrations")
-        m["final"] = [int(v) for v in final_idx]
+        m["final"] = [int(v) % n_from for v in final_idx]
         m.setdefault("finals", {})[m["fits"]] = (m["final"], op["X"])
 
     def c06_lanes(self):
